@@ -427,7 +427,7 @@ class BeSrvFamily(Family):
         return "besrv:" + (so.split()[1] if so and so.startswith("spec-fail") and len(so.split()) > 1 else "?")
 
 
-PROPS_MODULES = ["C18", "DispatchFe"]
+PROPS_MODULES = ["C18", "DispatchFe", "ProxyOps"]
 RULE = ("family `proxy` (mode=srv): the real Backend proxy against the real FrontendReqHandler with a recording application handler: "
         "five request kinds x UUID / mapping lattice (64-bit offsets and lengths at the wrap boundaries, flag values, padding bytes, "
         "nil / all-ones UUID, zero length) x scripted handler results (0, non-zero values incl. 2^64-1 and 2^64-22, every errno 1..133, "
